@@ -13,7 +13,10 @@ event with arbitrary parameters, every state satisfying them, and every admissib
   the metadata (`stopped_clean`, `life_invariant`);
 
 and reachability statements about single commands: `stop_reaches_stopped` (with `stop_reaches_stopped_or_hangs`
-and `waitstop_reaches_stopped` for stub trackers that do not answer the `stopped` event), `start_not_dropped`
+and `waitstop_reaches_stopped` for stub trackers that do not answer the `stopped` event; since the fix of finding
+C04-F6 without any hypothesis about a pending verification: `stop_withdraws_verify`,
+`stop_during_requested_verify_ends_stopped`, and the `stopHeld…` forms for the stop command given while the
+storage gates stay as they are), `start_not_dropped`
 (a start is never dropped, in particular not while the torrent is stopping: fix C04-F3), `verify_ends_stopped`
 (since the fix of finding C04-F4 also when none of the torrent's files exists: `verify_without_files_ends_stopped`,
 the case the property text asks about; `no_stale_verify_flag`: a pending verification request is never
@@ -56,22 +59,70 @@ theorem stopped_clean (s : St) (l : Life s) (hs : s.status = .stopped) :
 theorem running_has_files (s : St) (l : Life s) (hs : s.status = .downloading ∨ s.status = .seeding) :
     s.loaded = true ∧ FilesExist s ∧ s.info = true := l.files_of_running hs
 
-/-- **stop_reaches_stopped.** From any state satisfying the invariant, in any status: after the `stop`
-command (and the worker completions it releases) the status is `Stopped` — when no tracker leaves the
-`stopped` event unanswered (`stopHang = false`; see `stop_reaches_stopped_or_hangs` for the other case). -/
+/-- **stop_reaches_stopped.** From any state satisfying the invariant, in any status, **with or without a
+requested verification pending** (`doVerify`; since the fix of finding C04-F6 the stop command withdraws the
+request — until then the theorem needed `doVerify = false`): after the `stop` command (and the worker
+completions it releases) the status is `Stopped` — when no tracker leaves the `stopped` event unanswered
+(`stopHang = false`; see `stop_reaches_stopped_or_hangs` for the other case). -/
 theorem stop_reaches_stopped (s : St) (p : Parked) (kn : Nat → Bool) (l : Life s)
-    (hp : s.panicked = none) (hv : s.doVerify = false) (hh : s.stopHang = false) :
-    (step s p kn .stop).1.st.status = .stopped := Rain.Loop.stop_reaches_stopped s p kn l hp hv hh
+    (hp : s.panicked = none) (hh : s.stopHang = false) :
+    (step s p kn .stop).1.st.status = .stopped := Rain.Loop.stop_reaches_stopped s p kn l hp hh
 
 /-- **stop_reaches_stopped_or_hangs.** The same without any assumption about the trackers: after the `stop`
 command no verify is pending and the torrent is `Stopped`, or a tracker does not answer (`stopHang` was and
-is set) and the torrent is `Stopping` with its stop announcer waiting. -/
+is set) and the torrent is `Stopping` with its stop announcer waiting.  No hypothesis about `doVerify`. -/
 theorem stop_reaches_stopped_or_hangs (s : St) (p : Parked) (kn : Nat → Bool) (l : Life s)
-    (hp : s.panicked = none) (hv : s.doVerify = false) :
+    (hp : s.panicked = none) :
     (step s p kn .stop).1.st.doVerify = false ∧
     ((step s p kn .stop).1.st.status = .stopped ∨
       (s.stopHang = true ∧ (step s p kn .stop).1.st.status = .stopping ∧ (step s p kn .stop).1.st.stopHang = true)) :=
-  Rain.Loop.stop_reaches_stopped_or_hangs s p kn l hp hv
+  Rain.Loop.stop_reaches_stopped_or_hangs s p kn l hp
+
+/-- The same for `Op.stopHeld` (the stop command given while the harness leaves the storage gates as they
+are: an allocator or verifier held by a gate is dropped by `stop`, the gate stays). -/
+theorem stopHeld_reaches_stopped_or_hangs (s : St) (p : Parked) (kn : Nat → Bool) (l : Life s)
+    (hp : s.panicked = none) :
+    (step s p kn .stopHeld).1.st.doVerify = false ∧
+    ((step s p kn .stopHeld).1.st.status = .stopped ∨
+      (s.stopHang = true ∧ (step s p kn .stopHeld).1.st.status = .stopping ∧
+        (step s p kn .stopHeld).1.st.stopHang = true)) :=
+  Rain.Loop.stopHeld_reaches_stopped_or_hangs s p kn l hp
+
+theorem stopHeld_reaches_stopped (s : St) (p : Parked) (kn : Nat → Bool) (l : Life s)
+    (hp : s.panicked = none) (hh : s.stopHang = false) :
+    (step s p kn .stopHeld).1.st.status = .stopped := Rain.Loop.stopHeld_reaches_stopped s p kn l hp hh
+
+/-- **stop_withdraws_verify** (fix for finding C04-F6).  For **every** state — no invariant, panicked or
+not, any gates, any parked message — the state the handler of the stop command leaves, and the state at the
+end of the whole step (after the worker completions and the delivery of a parked message), has
+`doVerify = false`; for `Op.stop` and for `Op.stopHeld`.  (Nothing but the verify command sets the flag:
+`runWorkers_doVerify_false`.) -/
+theorem stop_withdraws_verify (s : St) (p : Parked) (kn : Nat → Bool) :
+    ((handle s p kn .stop).1.1.doVerify = false ∧ (step s p kn .stop).1.st.doVerify = false) ∧
+    ((handle s p kn .stopHeld).1.1.doVerify = false ∧ (step s p kn .stopHeld).1.st.doVerify = false) :=
+  ⟨stopOp_withdraws_verify s p kn .stop (Or.inl rfl), stopOp_withdraws_verify s p kn .stopHeld (Or.inr rfl)⟩
+
+/-- **stop_during_requested_verify_ends_stopped** (the point of finding C04-F6).  A verification has been
+requested (`doVerify = true`) and is on its way — the torrent is `Stopping` (the stop the verify command
+triggered has not completed), `Allocating` or `Verifying` (the restart is running, possibly held by the open
+or the read gate, which `Op.stopHeld` leaves alone).  Then the stop command — `Op.stopHeld`, or `Op.stop` —
+ends with the status `Stopped`, or `Stopping` while a tracker does not answer the `stopped` event
+(`stopHang` was and is set); never `Verifying` or `Allocating` again; no allocator and no verifier is left;
+and `doVerify = false`, so no later `handleStopped` restarts the torrent.  Before the fix `handleStopped`
+saw the flag and restarted the torrent to verify: the user's stop was overridden.
+
+Hypotheses really needed: the lifecycle invariant and `panicked = none` — the same as for
+`stop_reaches_stopped_or_hangs`; the two that describe the scenario (`_hdv`, `_hst`) are not used: the
+statement holds in every status and whatever `doVerify` was, for any gates. -/
+theorem stop_during_requested_verify_ends_stopped (s : St) (p : Parked) (kn : Nat → Bool) (op : Op)
+    (hop : op = .stopHeld ∨ op = .stop) (l : Life s) (hp : s.panicked = none) (_hdv : s.doVerify = true)
+    (_hst : s.status = .stopping ∨ s.status = .allocating ∨ s.status = .verifying) :
+    ((step s p kn op).1.st.status = .stopped ∨
+      (s.stopHang = true ∧ (step s p kn op).1.st.status = .stopping ∧ (step s p kn op).1.st.stopHang = true)) ∧
+    (step s p kn op).1.st.status ≠ .verifying ∧ (step s p kn op).1.st.status ≠ .allocating ∧
+    (step s p kn op).1.st.doVerify = false ∧
+    (step s p kn op).1.st.allocator = false ∧ (step s p kn op).1.st.verifier = false :=
+  stopOp_ends_stopped s p kn op hop.symm l hp
 
 /-- **waitstop_reaches_stopped.** `Op.waitstop` (TrackerStopTimeout has passed) and the worker completions
 after it: a stopping (or stopped) torrent without a pending verify is `Stopped`, whatever `stopHang` was. -/
@@ -82,9 +133,15 @@ theorem waitstop_reaches_stopped (s : St) (p : Parked) (kn : Nat → Bool) (l : 
 
 /-- `stop`, then the stop timeout: `Stopped` in every case, provided the first step did not panic. -/
 theorem stop_waitstop_reaches_stopped (s : St) (p : Parked) (kn kn' : Nat → Bool) (l : Life s)
-    (hp : s.panicked = none) (hv : s.doVerify = false) (hp' : (step s p kn .stop).1.st.panicked = none) :
+    (hp : s.panicked = none) (hp' : (step s p kn .stop).1.st.panicked = none) :
     (step (step s p kn .stop).1.st (step s p kn .stop).2 kn' .waitstop).1.st.status = .stopped :=
-  Rain.Loop.stop_waitstop_reaches_stopped s p kn kn' l hp hv hp'
+  Rain.Loop.stop_waitstop_reaches_stopped s p kn kn' l hp hp'
+
+/-- … and for `Op.stopHeld`. -/
+theorem stopHeld_waitstop_reaches_stopped (s : St) (p : Parked) (kn kn' : Nat → Bool) (l : Life s)
+    (hp : s.panicked = none) (hp' : (step s p kn .stopHeld).1.st.panicked = none) :
+    (step (step s p kn .stopHeld).1.st (step s p kn .stopHeld).2 kn' .waitstop).1.st.status = .stopped :=
+  Rain.Loop.stopOp_waitstop_reaches_stopped s p kn kn' .stopHeld (Or.inr rfl) l hp hp'
 
 /-- **start_not_dropped** (fix for finding C04-F3).  For *every* state — stopped, stopping with or without a
 tracker that hangs, running, panicked or not — after `start()` the torrent is neither stopped nor stopping
@@ -163,6 +220,27 @@ theorem verify_from_running_ends_stopped_or_hangs (s : St) (p : Parked) (kn : Na
     (s.stopHang = true ∧ (step s p kn .verify).1.st.status = .stopping ∧
       (step s p kn .verify).1.st.stopHang = true ∧ (step s p kn .verify).1.st.doVerify = true) :=
   Rain.Loop.verify_from_running_ends_stopped_or_hangs s p kn l he hi hp hf
+
+/-- The two verify theorems for `Op.verifyHeld` (the verify command given while the harness leaves the storage
+gates as they are): the op does not release the gates, so that they are released is a hypothesis.  With a gate
+held the op ends `Allocating` / `Verifying` with the request pending — the situation in which finding C04-F6
+arose (examples at the end of the file). -/
+theorem verifyHeld_ends_stopped_or_hangs (s : St) (p : Parked) (kn : Nat → Bool) (l : Life s) (he : s.errC = false)
+    (hi : s.info = true) (hp : s.panicked = none) (hf : s.failOpen = false)
+    (hgo : s.gateOpen = false) (hgr : s.gateRead = false) :
+    (step s p kn .verifyHeld).1.st.doVerify = false ∧
+    ((step s p kn .verifyHeld).1.st.status = .stopped ∨
+      (s.stopHang = true ∧ (step s p kn .verifyHeld).1.st.status = .stopping ∧
+        (step s p kn .verifyHeld).1.st.stopHang = true)) :=
+  Rain.Loop.verifyHeld_ends_stopped_or_hangs s p kn l he hi hp hf hgo hgr
+
+theorem verifyHeld_from_running_ends_stopped_or_hangs (s : St) (p : Parked) (kn : Nat → Bool) (l : Life s)
+    (he : s.errC = true) (hi : s.info = true) (hp : s.panicked = none) (hf : s.failOpen = false)
+    (hgo : s.gateOpen = false) (hgr : s.gateRead = false) :
+    ((step s p kn .verifyHeld).1.st.status = .stopped ∧ (step s p kn .verifyHeld).1.st.doVerify = false) ∨
+    (s.stopHang = true ∧ (step s p kn .verifyHeld).1.st.status = .stopping ∧
+      (step s p kn .verifyHeld).1.st.stopHang = true ∧ (step s p kn .verifyHeld).1.st.doVerify = true) :=
+  Rain.Loop.verifyHeld_from_running_ends_stopped_or_hangs s p kn l he hi hp hf hgo hgr
 
 /-- … and the pending verify of the second case runs to the end when the stop timeout passes
 (`Op.waitstop`), the storage gates being released: `Stopped`, flag cleared. -/
@@ -281,9 +359,9 @@ theorem write_invariant_run (s0 : St) (h0 : InitLike s0) (hw : s0.writing = none
 /-- `stop`, then the stop timeout: `Stopped` in every case along a history — the extra hypothesis of
 `stop_waitstop_reaches_stopped` (the first step does not panic) is discharged by the invariant. -/
 theorem stop_waitstop_reaches_stopped_full (s : St) (p : Parked) (kn kn' : Nat → Bool) (h : Full s)
-    (hp : s.panicked = none) (hv : s.doVerify = false) :
+    (hp : s.panicked = none) :
     (step (step s p kn .stop).1.st (step s p kn .stop).2 kn' .waitstop).1.st.status = .stopped :=
-  Rain.Loop.stop_waitstop_reaches_stopped s p kn kn' h.life hp hv ((step_full s p kn .stop h).2 hp)
+  Rain.Loop.stop_waitstop_reaches_stopped s p kn kn' h.life hp ((step_full s p kn .stop h).2 hp)
 
 /-! ### `StopAfterMetadata` and the piece-count limit: what the completion of the metadata download starts -/
 
@@ -315,7 +393,8 @@ invariant `Full` with any number of peers connected: with `StopAfterMetadata` th
 metadata download ends with the metadata adopted and the status `Stopped` — or `Stopping` if a tracker does
 not answer the `stopped` event — never `Allocating`, `Verifying` or `Downloading`; no allocator, no verifier,
 nothing loaded, no peers, no downloads, no panic.  Hypotheses: no verify command is pending (`doVerify`; a
-pending verify turns every stop into a restart: witness below) and the loop has not panicked. -/
+pending verify turns this stop — the loop's own, not the stop command, which withdraws the request — into a
+restart: witness below) and the loop has not panicked. -/
 theorem stop_after_metadata_stops (s : St) (p : Parked) (kn : Nat → Bool) (d : IDl) (k i len : Nat) (good : Bool)
     (h : Full s) (hpan : s.panicked = none) (hdv : s.doVerify = false)
     (hk : (s.findPeer k).isSome = true) (hc : HmdComplete (s, []) d k i len good)
@@ -635,6 +714,71 @@ example : ({ (drun (sS true, none) evsS).1 with idls := [], info := true, metaDo
     (({ (drun (sS true, none) evsS).1 with idls := [], info := true, metaDone := true } : St).closePeer 1).mayStart = [] ∧
     (({ (drun (sS true, none) evsS).1 with idls := [], info := true, metaDone := true } : St).closePeer 1).dls = [] := by
   decide
+
+/-! ### Finding C04-F6: a stop during a requested verification (non-vacuity of `stop_withdraws_verify`,
+`stop_during_requested_verify_ends_stopped`, `stopHeld_reaches_stopped_or_hangs`)
+
+The one-file torrent with its file on disk.  The verify command given with the gates left alone
+(`Op.verifyHeld`) while the read gate is held leaves the torrent `Verifying` with the request pending; with the
+open gate held, `Allocating`; on the seeding torrent whose tracker does not answer, `Stopping`.  All three are
+states of the invariant reached by `drun` from an `InitLike` state, so the hypotheses of the theorem are
+satisfiable in each of its three statuses.  `Op.stopHeld` then ends `Stopped` (`Stopping` behind the hanging
+tracker), flag withdrawn, the held worker dropped; a gate event afterwards / the stop timeout restarts
+nothing.  (On the model before the fix the same `stopHeld` left `doVerify` set and `handleStopped` restarted
+the torrent: `Verifying` / `Allocating` again — the harness saw it as `stop-did-not-stop`.) -/
+private def s1e : St := { s1 with fileExists := [true], known := [true] }
+private def evsRV : List Ev := [⟨.gate .read true, kn [], [], []⟩, ⟨.verifyHeld, kn [], [], []⟩]
+private def evsRA : List Ev := [⟨.gate .open true, kn [], [], []⟩, ⟨.verifyHeld, kn [], [], []⟩]
+private def evsRS : List Ev := evs1 ++ [⟨.verifyHeld, kn [1], [], []⟩]
+private def evStopHeld : Ev := ⟨.stopHeld, kn [1], [], []⟩
+
+example : Life (drun (s1e, none) evsRV).1 ∧ Life (drun (s1e, none) evsRA).1 ∧ Life (drun (s1h, none) evsRS).1 :=
+  ⟨drun_life _ _ (InitLike.life (by apply initLike_of <;> decide)) (by decide),
+   drun_life _ _ (InitLike.life (by apply initLike_of <;> decide)) (by decide),
+   drun_life _ _ (InitLike.life (by apply initLike_of <;> decide)) (by decide)⟩
+/-- the hypotheses, in the three statuses -/
+example : (drun (s1e, none) evsRV).1.status = .verifying ∧ (drun (s1e, none) evsRV).1.doVerify = true ∧
+    (drun (s1e, none) evsRV).1.gateRead = true ∧ (drun (s1e, none) evsRV).1.panicked = none ∧
+    (drun (s1e, none) evsRA).1.status = .allocating ∧ (drun (s1e, none) evsRA).1.doVerify = true ∧
+    (drun (s1e, none) evsRA).1.gateOpen = true ∧ (drun (s1e, none) evsRA).1.panicked = none ∧
+    (drun (s1h, none) evsRS).1.status = .stopping ∧ (drun (s1h, none) evsRS).1.doVerify = true ∧
+    (drun (s1h, none) evsRS).1.stopHang = true ∧ (drun (s1h, none) evsRS).1.panicked = none := by decide
+/-- `Verifying` behind the read gate: `stopHeld` ⇒ `Stopped`, request withdrawn, no verifier (`St.stop` drops
+the held worker and with it its gate); a later gate event restarts nothing -/
+example : (drun (s1e, none) (evsRV ++ [evStopHeld])).1.status = .stopped ∧
+    (drun (s1e, none) (evsRV ++ [evStopHeld])).1.doVerify = false ∧
+    (drun (s1e, none) (evsRV ++ [evStopHeld])).1.verifier = false ∧
+    (drun (s1e, none) (evsRV ++ [evStopHeld])).1.gateRead = false ∧
+    (drun (s1e, none) (evsRV ++ [evStopHeld, ⟨.gate .read false, kn [], [], []⟩])).1.status = .stopped := by decide
+/-- `Allocating` behind the open gate -/
+example : (drun (s1e, none) (evsRA ++ [evStopHeld])).1.status = .stopped ∧
+    (drun (s1e, none) (evsRA ++ [evStopHeld])).1.doVerify = false ∧
+    (drun (s1e, none) (evsRA ++ [evStopHeld])).1.allocator = false ∧
+    (drun (s1e, none) (evsRA ++ [evStopHeld])).1.gateOpen = false ∧
+    (drun (s1e, none) (evsRA ++ [evStopHeld, ⟨.gate .open false, kn [], [], []⟩])).1.status = .stopped := by decide
+/-- `Stopping` behind a hanging tracker: `stopHeld` ⇒ still `Stopping`, request withdrawn; the stop timeout ends
+`Stopped` — without the `stopHeld` it runs the verification first (same end, bitfield re-verified) -/
+example : (drun (s1h, none) (evsRS ++ [evStopHeld])).1.status = .stopping ∧
+    (drun (s1h, none) (evsRS ++ [evStopHeld])).1.doVerify = false ∧
+    (drun (s1h, none) (evsRS ++ [evStopHeld, ⟨.gate .read true, kn [1], [], []⟩, ⟨.waitstop, kn [1], [], []⟩])).1.status
+      = .stopped ∧
+    (drun (s1h, none) (evsRS ++ [⟨.gate .read true, kn [1], [], []⟩, ⟨.waitstop, kn [1], [], []⟩])).1.status
+      = .verifying := by decide
+/-- `verifyHeld_ends_stopped_or_hangs` / `verifyHeld_from_running_ends_stopped_or_hangs`: with the gates
+released `Op.verifyHeld` runs the verification to the end, like `Op.verify` -/
+example : (step s1e none (fun _ => false) .verifyHeld).1.st.status = .stopped ∧
+    (step s1e none (fun _ => false) .verifyHeld).1.st.doVerify = false ∧
+    (step s1e none (fun _ => false) .verifyHeld).1.st.bf = some [false] ∧
+    (drun (s1, none) (evs1 ++ [⟨.verifyHeld, kn [1], [], []⟩])).1.status = .stopped ∧
+    (drun (s1, none) (evs1 ++ [⟨.verifyHeld, kn [1], [], []⟩])).1.bf = some [true] ∧
+    (drun (s1, none) evs1).1.gateOpen = false ∧ (drun (s1, none) evs1).1.gateRead = false := by decide
+/-- the same with `Op.stop` (gates released by the harness) -/
+example : (drun (s1e, none) (evsRV ++ [⟨.stop, kn [], [], []⟩])).1.status = .stopped ∧
+    (drun (s1e, none) (evsRV ++ [⟨.stop, kn [], [], []⟩])).1.doVerify = false ∧
+    (drun (s1e, none) (evsRV ++ [⟨.stop, kn [], [], []⟩])).1.gateRead = false := by decide
+/-- `stop_withdraws_verify` needs no invariant: a panicked state with the flag set -/
+example : (step { s1e with doVerify := true, panicked := some "x", errC := true } none (fun _ => false) .stopHeld).1.st.doVerify
+    = false := by decide
 end Witnesses
 
 end Rain.Props.C04
